@@ -140,7 +140,8 @@ async def _one_round(case, params, make_client_patch):
             k = json.loads(request.content)["params"]["k"]
         except Exception:
             k = None
-        rec = {"k": k, "sess": request.headers.get("mcp-session-id"), "a": seq["n"], "d": None}
+        rec = {"k": k, "sess": request.headers.get("mcp-session-id"), "a": seq["n"], "d": None,
+               "wire": [[a, b_] for a, b_ in request.headers.multi_items()]}
         posts.append(rec)
         if k == -1:
             b = fence_behaviour()
@@ -160,17 +161,36 @@ async def _one_round(case, params, make_client_patch):
     out = []
     fence = False
     leave = case.get("leave_at")
+    waiters = []
+    extra = {}
+    keep = {}
     with make_client_patch(handler):
+        if case.get("direct"):
+            # alternate API, before start: get_streams() must refuse
+            T = _transport_module()
+            try:
+                await T.StreamableHTTPTransport(params).get_streams()
+                extra["unstarted"] = "returned"
+            except RuntimeError:
+                extra["unstarted"] = "RuntimeError"
         async with connect() as ((rd, wr), transport):
+            keep["rd"] = rd
+            if transport is not None:
+                transport.set_protocol_version("2025-06-18")   # a no-op in this transport: headers must not change
+
             async def waiter(k):
                 # legacy API: a caller waiting on the transport's future for the same id; whatever it gets
                 # (a result, a timeout, a cancellation at exit) must not disturb the read stream
                 try:
-                    got = await transport.wait_for_response(str(G.idval(reqs[k]["id"])), timeout=reqs[k]["wait"] / vloop.TICKS_PER_S)
+                    got = await transport.wait_for_response(
+                        str(G.idval(reqs[k]["id"])), timeout=None if reqs[k]["wait"] < 0 else reqs[k]["wait"] / vloop.TICKS_PER_S)
                     if isinstance(got, dict):
                         out.append(canon_delivered(got))
-                except (asyncio.TimeoutError, asyncio.CancelledError, TimeoutError):
-                    pass
+                    waiters.append([k, "result"])
+                except (asyncio.TimeoutError, TimeoutError):
+                    waiters.append([k, "timeout"])
+                except asyncio.CancelledError:
+                    waiters.append([k, "cancelled"])
 
             async def send_one(k):
                 await vsleep(reqs[k].get("delay", 0))
@@ -198,8 +218,23 @@ async def _one_round(case, params, make_client_patch):
                 tg.cancel_scope.cancel()
             if transport is not None:
                 stats = transport.get_connection_stats()
-                session_end = [transport.get_session_id(), stats.get("session_id")]
-    return {"transcript": out, "hdrs": [p["sess"] for p in posts], "order": [p["k"] for p in posts],
+                extra["session_end"] = [transport.get_session_id(), stats.get("session_id")]
+        # after the context: what was routed before the close is still readable, then end-of-stream
+        eos = None
+        if leave is not None:
+            import anyio as _a
+            while True:
+                try:
+                    out.append(canon_delivered(keep["rd"].receive_nowait()))
+                except _a.EndOfStream:
+                    eos = True
+                    break
+                except (_a.WouldBlock, _a.ClosedResourceError):
+                    eos = False
+                    break
+            await asyncio.sleep(0)
+    return {"eos": eos, "waiters": sorted(waiters), "extra": extra, "wire": [p["wire"] for p in posts],
+            "transcript": out, "hdrs": [p["sess"] for p in posts], "order": [p["k"] for p in posts],
             "events": [[p["k"], p["a"], p["d"]] for p in posts], "posts": len(posts), "fence": fence}
 
 
@@ -213,7 +248,9 @@ async def _drive(case, make_client_patch):
         os.environ.pop("MCP_BEARER_TOKEN", None)
     try:
         params = make_params(case)
+        cfg_headers = [[k, v] for k, v in (params.headers or {}).items()]
         obs = await _one_round(case, params, make_client_patch)
+        obs["cfg_headers"] = cfg_headers
         if case.get("reuse"):
             # the same parameters object used for a second connection
             obs["round2"] = await _one_round(case, params, make_client_patch)
@@ -277,9 +314,23 @@ def run_cases(cases):
 
 # ----------------------------------------------------------------------------- model side
 
+def completed_before_leave(case):
+    """indices (in send order) of the requests whose POST completes before the caller leaves the
+    context: the sender is serial, so POST j starts when POST j-1 is complete"""
+    t, out = 0, []
+    for k in send_order(case):
+        r = case["reqs"][k]
+        t = max(t, r.get("delay", 0)) + r["b"].get("lat", 0)
+        if t >= case["leave_at"]:
+            break
+        out.append(k)
+    return out
+
+
 def model_line(case):
     if case.get("leave_at") is not None:
-        return None
+        reqs = [{"id": case["reqs"][k]["id"], "b": G.model_behaviour(case["reqs"][k]["b"])} for k in completed_before_leave(case)]
+        return {"m": "http", "op": "run", "session0": case.get("session0"), "reqs": reqs}
     reqs = [{"id": case["reqs"][k]["id"], "b": G.model_behaviour(case["reqs"][k]["b"])} for k in send_order(case)]
     reqs.append({"id": {"s": FENCE_ID}, "b": G.model_behaviour(fence_behaviour())})
     return {"m": "http", "op": "run", "session0": case.get("session0"), "reqs": reqs}
@@ -349,10 +400,18 @@ def same(case, impl, model):
     terminal (result or error, whatever its payload) with the same typed id; session headers
     are compared where the property determines them"""
     from .core import canon
+    if case.get("leave_at") is not None:
+        # closed with requests outstanding: the completed prefix is delivered as always; the POST in flight was
+        # sent (its headers are on record) but nothing is delivered for it
+        done = completed_before_leave(case)
+        n = len(done)
+        if impl["fence"] or impl["order"][:n] != done or len(impl["hdrs"]) not in (n, n + 1):
+            return False
+        impl = dict(impl, hdrs=impl["hdrs"][:n], fence=True)
+    elif impl.get("order") is not None and impl["order"] != send_order(case) + [-1]:
+        return False  # POSTs leave in the order the messages entered the write stream
     if impl["fence"] != model["fence"] or len(impl["hdrs"]) != len(model["hdrs"]):
         return False
-    if impl.get("order") is not None and impl["order"] != send_order(case) + [-1]:
-        return False  # POSTs leave in the order the messages entered the write stream
     for k in determined_headers(case):
         if k < len(impl["hdrs"]) and impl["hdrs"][k] != model["hdrs"][k]:
             return False
@@ -459,3 +518,49 @@ def run_case_socket(case):
         return anyio.run(_drive_socket, case)
     except Exception as ex:
         return {"transcript": [], "hdrs": [], "posts": 0, "fence": False, "crash": type(ex).__name__}
+
+
+# ----------------------------------------------------------------------------- streaming branch
+
+def run_stream(chunks, rid=7, fail=False):
+    """Drive the streaming branch of `_process_sse_response` (unreachable with an httpx response,
+    which always has `.text`): a response object without `.text` whose `aiter_text` yields the
+    given chunks.  Returns the messages routed to the read stream, or {"skipped": why} when the
+    transport has no such method any more."""
+    import anyio
+
+    class Stub:
+        headers = {}
+        status_code = 200
+
+        def __init__(self, chunks):
+            self._chunks = chunks
+
+        async def aiter_text(self, chunk_size=None):
+            for c in self._chunks:
+                yield c
+            if fail:
+                import httpx
+                raise httpx.ReadError("connection lost in the middle of the stream")
+
+    async def main():
+        T = _transport_module()
+        from chuk_mcp.transports.http import StreamableHTTPParameters
+        out = []
+        async with T.StreamableHTTPTransport(StreamableHTTPParameters(url=URL)) as t:
+            fn = getattr(t, "_process_sse_response", None)
+            if fn is None:
+                return {"skipped": "no _process_sse_response"}
+            rd, _ = await t.get_streams()
+            await fn(Stub(list(chunks)), rid)
+            while True:
+                try:
+                    out.append(canon_delivered(rd.receive_nowait()))
+                except (anyio.WouldBlock, anyio.EndOfStream):
+                    break
+        return {"transcript": out}
+
+    try:
+        return vloop.run(main)
+    except Exception as ex:
+        return {"skipped": f"{type(ex).__name__}"}
